@@ -26,24 +26,34 @@ Qed.
 Definition tok_ok (t : list N * list N) : Prop :=
   (N.of_nat (length (fst t)) < 2 ^ 32)%N /\ (N.of_nat (length (snd t)) < 2 ^ 32)%N.
 
-Lemma un_tokens_roundtrip : forall ts rest, Forall tok_ok ts ->
-  un_tokens (length ts) (flat_map marshal_token ts ++ rest) = UOk ts.
+Lemma tokens_length : forall ts, length ts <= length (flat_map marshal_token ts).
 Proof.
-  induction ts as [|[k v] r IH]; intros rest HF; [reflexivity|].
-  inversion HF as [|? ? [Hk Hv] Hr]; subst. simpl in Hk, Hv.
-  cbn [length flat_map un_tokens]. unfold marshal_token. cbn [fst snd].
-  rewrite <- !app_assoc.
-  rewrite rd_le by (try reflexivity; apply le4_roundtrip; assumption).
-  rewrite Nnat.Nat2N.id.
-  rewrite app_length.
-  replace (Nat.ltb (length k + _) (length k)) with false by (symmetry; apply Nat.ltb_ge; lia).
-  rewrite firstn_app_exact, skipn_app_exact by reflexivity.
-  rewrite rd_le by (try reflexivity; apply le4_roundtrip; assumption).
-  rewrite Nnat.Nat2N.id.
-  rewrite app_length.
-  replace (Nat.ltb (length v + _) (length v)) with false by (symmetry; apply Nat.ltb_ge; lia).
-  rewrite firstn_app_exact, skipn_app_exact by reflexivity.
-  rewrite IH by assumption. reflexivity.
+  induction ts as [|[k v] r IH]; [simpl; lia|]. cbn [flat_map length].
+  unfold marshal_token in *. cbn [fst snd]. rewrite !app_length, !le4_length. lia.
+Qed.
+
+Lemma un_tokens_roundtrip : forall ts rest f, Forall tok_ok ts -> length ts < f ->
+  un_tokens f (N.of_nat (length ts)) (flat_map marshal_token ts ++ rest) = UOk ts.
+Proof.
+  induction ts as [|[k v] r IH]; intros rest f HF L.
+  - destruct f; reflexivity.
+  - inversion HF as [|? ? [Hk Hv] Hr]; subst. simpl in Hk, Hv.
+    destruct f; [lia|]. cbn [length flat_map un_tokens].
+    replace (N.eqb (N.of_nat (S (length r))) 0) with false by (symmetry; apply N.eqb_neq; lia).
+    replace (N.of_nat (S (length r)) - 1)%N with (N.of_nat (length r)) by lia.
+    unfold marshal_token. cbn [fst snd].
+    rewrite <- !app_assoc.
+    rewrite rd_le by (try reflexivity; apply le4_roundtrip; assumption).
+    rewrite app_length.
+    replace (N.ltb (N.of_nat (length k + _)) (N.of_nat (length k))) with false by (symmetry; apply N.ltb_ge; lia).
+    rewrite Nnat.Nat2N.id.
+    rewrite firstn_app_exact, skipn_app_exact by reflexivity.
+    rewrite rd_le by (try reflexivity; apply le4_roundtrip; assumption).
+    rewrite app_length.
+    replace (N.ltb (N.of_nat (length v + _)) (N.of_nat (length v))) with false by (symmetry; apply N.ltb_ge; lia).
+    rewrite Nnat.Nat2N.id.
+    rewrite firstn_app_exact, skipn_app_exact by reflexivity.
+    rewrite IH; [reflexivity|assumption|simpl in L; lia].
 Qed.
 
 Definition meta_ok (m : meta) : Prop :=
@@ -66,7 +76,8 @@ Proof.
   rewrite rd_le by (try reflexivity; apply le8_roundtrip; assumption).
   rewrite rd_le by (try reflexivity; apply le4_roundtrip; assumption).
   rewrite rd_le by (try reflexivity; apply le4_roundtrip; assumption).
-  rewrite Nnat.Nat2N.id. rewrite un_tokens_roundtrip by assumption. reflexivity.
+  rewrite un_tokens_roundtrip; [reflexivity|assumption|].
+  rewrite app_length. pose proof (tokens_length ts). lia.
 Qed.
 
 Lemma unmarshal_all_roundtrip : forall ms, Forall meta_ok ms ->
